@@ -462,8 +462,10 @@ pub fn run_case(ctx: &mut Ctx, fam: &str, k: u64, r: &mut Rng) {
         }
     };
     let seed = rand_seed(r, out_n);
-    let o = run_and_check(&p, &seed, &CheckOpts::default());
-    let desc = format!("{}|{}|{}", p.desc(), mask_name(&case.mask), seed.name());
+    // one case in five differentiates twice with the same seed: the second pass must add exactly the same again
+    let passes = if r.chance(1, 5) { 2 } else { 1 };
+    let o = run_and_check(&p, &seed, &CheckOpts { passes, ..Default::default() });
+    let desc = format!("{}|{}|{}{}", p.desc(), mask_name(&case.mask), seed.name(), if passes == 2 { "|x2" } else { "" });
     ctx.case(&desc, o.nonzero_grads > 0);
     ctx.hist("cells", &case.cell);
     ctx.count("gradients_compared", o.grads_compared);
